@@ -337,7 +337,8 @@ def cpy_bind(fn: Any, lam: Any) -> str:
 _AB: dict[str, Any] = {}
 
 
-def ab_eval_pairs(sigs: list[Any], calls: list[Any], pairs: list[tuple[int, int]], pristine: bool = False) -> tuple[list[tuple[str, Any]], list[Any], int]:
+def ab_eval_pairs(sigs: list[Any], calls: list[Any], pairs: list[tuple[int, int]], pristine: bool = False,
+                  want_differ: bool = False) -> tuple[list[tuple[str, Any]], list[Any], int]:
     """CPython outcome and mypy outcome of every (sig index, call index) pair."""
     names = _AB["names"]
     ns = dict(ab_runtime_ns(names, _AB["maxtd"]))
@@ -357,7 +358,9 @@ def ab_eval_pairs(sigs: list[Any], calls: list[Any], pairs: list[tuple[int, int]
             lams[c] = eval("lambda f: " + call_text(calls[c], "f"), ns)
         cpy.append(cpy_bind(fns[s], lams[c]))
         lines.append(call_text(calls[c], "f%d" % s))
-    my, builds, _ = run_cases(header, lines, pristine=pristine)
+    my, builds, differ = run_cases(header, lines, pristine=pristine)
+    if want_differ:
+        return [(x, None) for x in cpy], my, builds, differ  # type: ignore[return-value]
     return [(x, None) for x in cpy], my, builds
 
 
@@ -365,9 +368,9 @@ def ab_chunk(task: tuple[list[int], int, int]) -> dict[str, Any]:
     sidx, clo, chi = task
     sigs, calls, vec = _AB["sigs"], _AB["calls"], _AB["vec"]
     pairs = [(s, c) for c in range(clo, chi) for s in sidx]
-    cpy, my, builds = ab_eval_pairs(sigs, calls, pairs)
+    cpy, my, builds, differ = ab_eval_pairs(sigs, calls, pairs, want_differ=True)
     out: dict[str, Any] = {"n": len(pairs), "builds": builds, "drift": [], "bad": [], "codes": {}, "cpy_rej": 0,
-                           "my_rej": 0, "sample": None}
+                           "my_rej": 0, "sample": None, "differ": differ}
     for (s, c), (cc, _), (mk, md) in zip(pairs, cpy, my):
         mask = vec[c][s]
         if (cc == "") != (mask == 0) or (cc and (cc.startswith("other:") or not (mask & ERRBITS[cc]))):
@@ -457,7 +460,7 @@ def tlc_checked(module: str, cfg: str, **kw: Any) -> Any:
     return r
 
 
-def ab_space(v: Verdict, tag: str, np_: int, na: int, g: Any, failing: list[Any], cov: dict[str, Any],
+def ab_space(tag: str, np_: int, na: int, g: Any, failing: list[Any], cov: dict[str, Any],
              sample_calls: int | None = None, rnd: random.Random | None = None) -> dict[str, Any]:
     """Replay one emitted signature x call space; returns the table of failures for look-up."""
     sigs_l = g.json_lines("SIGS")
@@ -473,13 +476,16 @@ def ab_space(v: Verdict, tag: str, np_: int, na: int, g: Any, failing: list[Any]
         assert rnd is not None
         rnd.shuffle(rows)
         rows = rows[:sample_calls]
+    # calls with several **mappings in chunks of their own (only efficiency: a module in which a
+    # call line crashed is checked a second time without those lines)
+    rows.sort(key=lambda r: sum(1 for a in r["c"] if a["k"] == "D") >= 2)
     calls = [canon_call(r["c"]) for r in rows]
     vec = [r["v"] for r in rows]
     if any(len(x) != len(sigs) for x in vec):
         raise MachineryError("ArgBind %s: verdict vector length" % tag)
     names = NAMES[:np_] + "z"
     _AB.update(sigs=sigs, calls=calls, vec=vec, names=names, maxtd=2)
-    per = max(1, 24000 // len(sigs))
+    per = max(1, 8000 // len(sigs))
     tasks = [(list(range(len(sigs))), lo, min(lo + per, len(calls))) for lo in range(0, len(calls), per)]
     t0 = time.time()
     outs = list(pool_map(ab_chunk, tasks))
@@ -493,27 +499,41 @@ def ab_space(v: Verdict, tag: str, np_: int, na: int, g: Any, failing: list[Any]
     for o in outs:
         for k, x in o["codes"].items():
             codes[k] = codes.get(k, 0) + x
-    table: dict[str, str] = {}
+    table: dict[str, str | None] = {}
+    if sample_calls is None:
+        pass
     for o in outs:
         for s, c, kind, cc, md in o["bad"]:
             failing.append(((sigs[s], calls[c]), kind, {"cpython": cc or "binds", "mypy": md}))
             table[json.dumps([sigs[s], calls[c]], sort_keys=True)] = kind
+    kinds: dict[str, int] = {}
+    for o in outs:
+        for b in o["bad"]:
+            kinds[b[2]] = kinds.get(b[2], 0) + 1
     cov["argbind/" + tag] = {
         "signatures": len(sigs), "calls": len(calls), "pairs_replayed": n,
         "cpython_rejects": sum(o["cpy_rej"] for o in outs), "mypy_rejects": sum(o["my_rej"] for o in outs),
         "mypy_builds": sum(o["builds"] for o in outs), "mypy_error_codes_on_call_lines": codes,
-        "disagreements": sum(len(o["bad"]) for o in outs), "replay_wall_s": round(time.time() - t0, 1),
+        "disagreements": kinds, "discovery_vs_unmodified_build_differences": sum(o["differ"] for o in outs),
+        "replay_wall_s": round(time.time() - t0, 1),
         "sample": next((o["sample"] for o in outs if o["sample"]), None),
     }
-    return {"np": np_, "na": na, "names": set(names), "table": table}
+    return {"np": np_, "na": na, "names": set(names), "table": table, "complete": sample_calls is None}
+
+
+def _ab_kind_task(xs: list[Any]) -> list[str | None]:
+    return ab_kind_batch(xs)
 
 
 def check_argbind(v: Verdict, tier: str, rnd: random.Random, cov: dict[str, Any]) -> dict[str, int]:
-    spaces = [("3x3", 3, 3)] if tier == "quick" else [("4x3", 4, 3), ("3x4", 3, 4)]
+    spaces = [("3x2", 3, 2)] if tier == "quick" else [("4x3", 4, 3)]
     states = transitions = 0
     failing: list[Any] = []
     tables = []
     pairs = 0
+    extra = os.environ.get("C12_ARGBIND_EXTRA")  # development: e.g. "3x4" = also enumerate that space completely
+    if extra:
+        spaces.append((extra, int(extra[0]), int(extra[2])))
     for tag, np_, na in spaces:
         r = tlc_checked("MC_ArgBind", "MC_ArgBind_%s.cfg" % tag, coverage=False)
         g = tlc_checked("MC_ArgBind", "Gen_ArgBind_%s.cfg" % tag, workers=8, timeout=1800)
@@ -521,28 +541,30 @@ def check_argbind(v: Verdict, tier: str, rnd: random.Random, cov: dict[str, Any]
             raise MachineryError("ArgBind actions never fired: %s" % g.never_fired())
         states += r.distinct
         transitions += r.generated
-        tables.append(ab_space(v, tag, np_, na, g, failing, cov))
+        tables.append(ab_space(tag, np_, na, g, failing, cov))
         cov["argbind/" + tag].update(tlc=dict(coverage_summary(g), states=r.distinct, transitions=r.generated,
                                               invariants=["SigsAgree", "BindsIffWellDefined", "DefaultsRelax", "ArityMonotone"]))
         pairs += cov["argbind/" + tag]["pairs_replayed"]
     # seeded sample of the 4 x 4 space (TLC simulation picks the calls; every signature of <= 4 parameters)
-    nsim = 400 if tier == "quick" else 6000
-    g = tlc_checked("MC_ArgBind", "Gen_ArgBind_4x4sim.cfg", workers=4, simulate="num=%d" % nsim, depth=5,
+    nsim = int(os.environ.get("C12_ARGBIND_NSIM", "0")) or (150 if tier == "quick" else 3000)
+    g = tlc_checked("MC_ArgBind", "Gen_ArgBind_4x4sim.cfg", workers=4, simulate="num=%d" % (nsim * 2), depth=5,
                     seed=rnd.randrange(1 << 30), coverage=False)
     sampled: list[Any] = []
-    ab_space(v, "4x4-sampled", 4, 4, g, sampled, cov, sample_calls=nsim, rnd=rnd)
+    ab_space("4x4-sampled", 4, 4, g, sampled, cov, sample_calls=nsim, rnd=rnd)
     pairs += cov["argbind/4x4-sampled"]["pairs_replayed"]
 
     def ident(x: Any) -> str:
         return json.dumps([x[0], canon_call(x[1])], sort_keys=True)
 
-    def in_table(x: Any) -> dict[str, str] | None:
+    def in_table(x: Any) -> dict[str, str | None] | None:
         sig, call = x
         used = {a["n"] for a in call if a["k"] == "K"} | {k for a in call if a["k"] == "D" for k in a["ks"]}
         for t in tables:
             if len(sig) <= t["np"] and len(call) <= t["na"] and used <= t["names"]:
                 return t["table"]
         return None
+
+    real_evals = [0]
 
     def kind_batch(xs: list[Any]) -> list[str | None]:
         res: list[str | None] = [None] * len(xs)
@@ -554,20 +576,35 @@ def check_argbind(v: Verdict, tier: str, rnd: random.Random, cov: dict[str, Any]
             else:
                 real.append(i)
         _AB.update(names=NAMES + "z", maxtd=2)
-        for i, k in zip(real, ab_kind_batch([xs[i] for i in real])):
+        real_evals[0] += len(real)
+        step = 1500
+        parts = [[xs[i] for i in real[lo:lo + step]] for lo in range(0, len(real), step)]
+        flat = [k for part in pool_map(_ab_kind_task, parts) for k in part]
+        for i, k in zip(real, flat):
             res[i] = k
         return res
 
     mins = minimise([(x, kind) for x, kind, _ in failing + sampled], lambda x: ab_reductions(x[0], x[1]), kind_batch, ident)
+    # reproduce every minimal failing input once more, alone, with unmodified mypy, before reporting it
+    _AB.update(names=NAMES + "z", maxtd=2)
     for m in sorted(mins, key=lambda m: ab_key(m["kind"], *m["input"])):
         sig, call = m["input"]
+        cpy, my, _ = ab_eval_pairs([sig], [call], [(0, 0)], pristine=True)
+        again = ab_kind(cpy[0][0], my[0][0], my[0][1])
+        if again != m["kind"]:
+            raise MachineryError("failure not reproducible: %s, first %s then %s" % (ab_key(m["kind"], sig, call), m["kind"], again))
         key = ab_key(m["kind"], sig, call)
-        v.violation(key, {"part": "argbind", "def": sig_text(sig), "call": call_text(call), "kind": m["kind"],
-                          "header": ab_header(NAMES + "z", 2), "explains_failing_inputs": m["count"],
+        v.violation(key, {"part": "argbind", "module": ab_header(NAMES + "z", 2) + [sig_text(sig), call_text(call)],
+                          "kind": m["kind"], "cpython": cpy[0][0] or "binds", "mypy": my[0],
+                          "explains_failing_inputs": m["count"],
                           "example_non_minimal": [sig_text(m["example"][0]), call_text(m["example"][1])]},
-                    "%s: `%s` called as `%s` (1-minimal; %d enumerated inputs reduce to it)"
-                    % (m["kind"], sig_text(sig, "f", ann=False), call_text(call, "f", pretty=True), m["count"]))
+                    "%s: `%s` called as `%s`: CPython %s, mypy %s (1-minimal; %d explored inputs reduce to it)"
+                    % (m["kind"], sig_text(sig, "f", ann=False), call_text(call, "f", pretty=True),
+                       ("raises TypeError (%s)" % cpy[0][0]) if cpy[0][0] else "binds the arguments",
+                       {"ok": "reports nothing", "rej": "rejects the call", "crash": "stops with INTERNAL ERROR"}[my[0][0]],
+                       m["count"]))
     cov["argbind/minimal_failing_inputs"] = len(mins)
+    cov["argbind/minimisation_real_evaluations"] = real_evals[0]
     return {"states": states, "transitions": transitions, "replayed": pairs,
             "failing": len(failing) + len(sampled)}
 
